@@ -23,6 +23,8 @@ TABLE = [
     ("not-json", 200, b"<html>", "invalid"), ("json-array", 200, [1], "invalid"), ("json-null", 200, None, "invalid"), ("json-string", 200, "x", "invalid"),
     ("empty-object", 200, {}, "invalid"), ("other-keys-only", 200, {"extensions": {}}, "invalid"), ("undecodable", 200, b'{"data": "\xe9\xff"}', "invalid"),
     ("http-400", 400, {"data": {"q": "v"}}, "http"), ("http-404-html", 404, b"<html>", "http"), ("http-500-errors", 500, {"errors": ERR}, "http"),
+    ("http-401-json-string", 401, "Unauthorized", "http"), ("http-500-json-array", 500, [], "http"), ("http-502-json-null", 502, None, "http"),
+    ("http-403-json-number", 403, 42, "http"), ("http-307-json-object", 307, {"data": {"q": "v"}}, "http"),
     ("http-301", 301, {"data": {"q": "v"}}, "http"), ("http-199", 199, {"data": {"q": "v"}}, "http"), ("http-503-empty", 503, b"", "http"),
 ]
 
